@@ -48,7 +48,7 @@ class Hist:
         self.src = os.path.join(self.dir, 'k.okl'); open(self.src, 'w').write(SRC)
         # the compiler is a wrapper around g++ that fails once when the flag file exists (a build that stops in the native compile)
         self.wrapper = os.path.join(self.dir, 'cxx.sh'); self.flag = os.path.join(self.dir, 'fail_once')
-        open(self.wrapper, 'w').write('#!/bin/sh\nif [ -e "%s" ]; then rm -f "%s"; echo "compiler: simulated failure" >&2; exit 1; fi\nexec g++ "$@"\n' % (self.flag, self.flag))
+        open(self.wrapper, 'w').write('#!/bin/sh\ncase "$*" in *findCompilerVendor*) exec g++ "$@";; esac\nif [ -e "%s" ]; then rm -f "%s"; echo "compiler: simulated failure" >&2; exit 1; fi\nexec g++ "$@"\n' % (self.flag, self.flag))
         os.chmod(self.wrapper, 0o755)
         self.props = os.path.join(self.dir, 'p.json'); open(self.props, 'w').write(json.dumps({'compiler': self.wrapper}))
 
@@ -97,7 +97,9 @@ def run_history(E, tag, states):
             open(h.flag, 'w').write('1')
         r = h.run('buildfile')
         if s.get('fail'):
-            out.append((s, {'rc': r['rc'], 'run': r['run'], 'exception': r['exception']}, r['run'] is None or r['run'] == expected(s)))
+            if r['run'] is not None or os.path.exists(h.flag):
+                raise C.Inconclusive('history %s: the build that was meant to fail in the native compile did not (compiler wrapper not used for the kernel?)' % tag)
+            out.append((s, {'rc': r['rc'], 'run': r['run'], 'exception': r['exception']}, True))
         else:
             out.append((s, {'rc': r['rc'], 'run': r['run'], 'exception': r['exception']}, r['run'] == expected(s)))
     return out
